@@ -194,6 +194,15 @@ CHECKS['C15'] = (
     'sampled directory; no duplicates, nothing else. Partial: archive encoding (zipfile/tarfile/bz2) is glue; name injectivity is not proved.',
     BASE_NOTE + 'zipfile, tarfile.', '6/C15')
 
+CHECKS['C16'] = (
+    'Lean 4 theorems (decide) over the argparse tables, handler map, handler attribute reads, API keyword wiring and normalisers regenerated from the CLI '
+    'sources + in-process runs of the bse entry point compared with direct API calls',
+    'Proof (over the regenerated tables): cli_handlers_total, cli_dests_defined, cli_forwards_all_get_basis (all 15 parameters of get_basis, once each), '
+    'cli_get_basis_sources, cli_forwards_all_get_refs, cli_defaults_agree (an absent option passes the API default), cli_normalisers. Validation: 300+ '
+    'generated command lines per run covering every data-returning sub-command (stdout and -o, non-canonical spellings, invalid names/formats/roles/families), '
+    'output = API value + newline. Partial: argparse and file I/O are trusted; handlers other than get-basis/get-refs are validated, not modelled.',
+    BASE_NOTE + 'argparse.', '6/C16')
+
 NOT_YET = {}
 
 
